@@ -683,7 +683,9 @@ class SoftwareSwitchBase (object):
       # Do we disable send-to-controller when performing this?
       # (Currently, there's the possibility that a table miss from this
       # will result in a send-to-controller which may send back to table...)
-      self.rx_packet(packet, in_port)
+      # Resubmit a copy; the rest of this action list and whatever the table
+      # does with the packet (rewrite it, buffer it) must not see each other
+      self.rx_packet(ethernet(raw=packet.pack()), in_port)
     else:
       self.log.warn("Unsupported virtual output port: %d", out_port)
 
